@@ -37,7 +37,7 @@ def mech_model(nout, regimen, tag):
 
 
 def error_models(nout):
-    return [chi.GaussianErrorModel(), chi.LogNormalErrorModel()][:nout]
+    return [chi.GaussianErrorModel(), chi.LogNormalErrorModel(), chi.MultiplicativeGaussianErrorModel()][:nout]
 
 
 def coded_posterior(names, ids, nch=2, ndr=3):
@@ -79,6 +79,9 @@ def replay_case(arg):
 
     def fail(clause, manifestation, detail):
         fails.append(dict(case=dict(config=rec), clause=clause, manifestation=manifestation, detail=detail, features=feats))
+    if nout > 2 and rec['regimen']:
+        cnt['three_outputs_with_regimen_not_replayed'] = 1        # (the dosed library model has two outputs)
+        return fails, cnt
     times = [0.5 * t for t in rec['times']]
     # the requested times arrive as a list or -- every other case -- as a NumPy array (which an in-place operation of the
     # callee would alter in the caller's hands)
@@ -92,7 +95,7 @@ def replay_case(arg):
             scribble(pm)
             names = pm.get_parameter_names()
             obs_names = pm.get_output_names()
-            params = [1.2, 0.9, 0.7][:nm] + [0.3, 0.2][:nout]
+            params = [1.2, 0.9, 0.7][:nm] + [0.3, 0.2, 0.25][:nout]
             covs = None
             probes.clear(tag)
             if kind == 'predictive':
